@@ -39,6 +39,10 @@ ScenKey ==
     [] ScenKind = "bind" ->
          IF out.op = "Bind" THEN <<"bind", out.api, out.sel, out.param, out.status, out.why, Len(cfg)>>
          ELSE <<"none">>
+    [] ScenKind = "clear" ->
+         \* clear_config by what there was to clear: every combination of empty / non-empty stores before the call
+         IF out.op = "Clear" THEN <<"clear", out.clearConstants, out.had, Len(usaved), interactive>>
+         ELSE <<"none">>
     [] ScenKind = "const" ->
          \* a %name parsed into the configuration, by outcome, by the constants that exist and by what earlier
          \* %name parses left in the store (so: the same abbreviation parsed before and after further definitions)
